@@ -21,7 +21,12 @@ for d in sorted(glob.glob("/verif/seeded/C*/")):
     if r.returncode != 0:
         rows.append((name, prop, "patch does not apply to %s" % head, 0, "")); continue
     t0 = time.time()
+    # a run against a mutated tree must not replace the committed evidence of the unchanged tree
+    ev = f"/verif/evidence/{prop}.json"
+    saved = open(ev).read() if os.path.exists(ev) else None
     r = sh(f"cd /verif && ./check {prop} quick", timeout=3600)
+    if saved is not None:
+        open(ev, "w").write(saved)
     dt = time.time() - t0
     sh("git -C /repo checkout -- .")
     viol = [l for l in r.stdout.splitlines() if l.startswith("VIOLATION")]
